@@ -65,11 +65,11 @@ func clauseOf(exp []string, res runner.Result) string {
 }
 
 func check(p *progen.Program, template bool) (verdict, error) {
-	exp, err := progen.Expected(p)
+	exp, err := expected(p)
 	if err != nil {
 		return verdict{}, err
 	}
-	res := runner.Run(p.Source(template), runner.Opts{Mode: modeOf(template), Fuel: 2_000_000})
+	res := runner.Run(source(p, template), runner.Opts{Mode: modeOf(template), Fuel: 2_000_000})
 	return verdict{Clause: clauseOf(exp, res), Expected: exp, Got: res}, nil
 }
 
@@ -105,11 +105,11 @@ func (r *reducer) clause(p *progen.Program, template bool) string {
 func (r *reducer) minimise(p *progen.Program, template bool, clause string) *progen.Program {
 	// candidates may not introduce a phenomenon the original did not have (no sliding into another defect)
 	allowed := progen.Flags(p)
-	for _, t := range dispatchTokens(p) {
+	for _, t := range localTokens(p) {
 		allowed[t] = true
 	}
 	red, _ := progen.Reduce(p, func(q *progen.Program) bool {
-		return progen.FlagsWithin(q, allowed) && dispatchWithin(q, allowed) && r.clause(q, template) == clause
+		return progen.FlagsWithin(q, allowed) && localWithin(q, allowed) && r.clause(q, template) == clause
 	}, 4000)
 	can := progen.Canonical(red)
 	if r.clause(can, template) == clause {
@@ -124,10 +124,10 @@ var f5memo = map[string]*progen.Program{}
 
 // shrinkCfg walks a failing F5 configuration down the family's parameter space while the same
 // clause still fails (first improving neighbour, deterministic order).
-func (r *reducer) shrinkCfg(c f5cfg, seed int64, template bool, clause string) f5cfg {
+func (r *reducer) shrinkCfg(c cfgT, seed int64, template bool, clause string) cfgT {
 	for steps := 0; steps < 500; steps++ {
 		moved := false
-		for _, n := range c.Shrink() {
+		for _, n := range c.Next() {
 			p := n.Build()
 			progen.Concretise(p, seed)
 			if r.clause(p, template) == clause {
@@ -147,7 +147,7 @@ func (r *reducer) shrinkCfg(c f5cfg, seed int64, template bool, clause string) f
 // fine enough that a defect in another construct gets another key. The minimal program itself
 // (the smallest seen for the key) is kept in the replay file.
 func keyOf(clause string, template bool, min *progen.Program) string {
-	sig := append(progen.Signature(min), dispatchTokens(min)...) // (programs without dispatch tokens keep their old keys)
+	sig := append(progen.Signature(min), localTokens(min)...) // (programs without dispatch tokens keep their old keys)
 	sort.Strings(sig)
 	k := clause + " [" + strings.Join(sig, " ") + "]"
 	if template {
@@ -230,7 +230,7 @@ func progWorker(w *pool.W, arg json.RawMessage) {
 	fails := map[string]*failRec{}
 	sampled := false
 
-	one := func(it progen.Item, modes []bool, cfg *f5cfg) {
+	one := func(it progen.Item, modes []bool, cfg cfgT) {
 		if sh.Deadline > 0 && skipped == 0 && cases[it.Family]%64 == 0 && time.Now().Unix() > sh.Deadline {
 			skipped = 1
 		} else if skipped > 0 {
@@ -262,7 +262,7 @@ func progWorker(w *pool.W, arg json.RawMessage) {
 				agree++
 				if !sampled && sh.I%16 == 3 && it.Family != "F4" && len(v.Expected[0]) > 12 {
 					sampled = true
-					w.Emit(rec{Kind: "sample", Sample: map[string]any{"id": it.ID, "source": it.P.Source(false), "reference_output": v.Expected[0], "origami_output": v.Got.Out}})
+					w.Emit(rec{Kind: "sample", Sample: map[string]any{"id": it.ID, "source": source(it.P, false), "reference_output": v.Expected[0], "origami_output": v.Got.Out}})
 				}
 				continue
 			}
@@ -270,7 +270,7 @@ func progWorker(w *pool.W, arg json.RawMessage) {
 			if cfg != nil {
 				// F5: walk down the family's own parameter space first; the statement-level reduction
 				// of each parameter-minimal program is done once per worker process
-				mc := red.shrinkCfg(*cfg, b.Seed, tmpl, v.Clause)
+				mc := red.shrinkCfg(cfg, b.Seed, tmpl, v.Clause)
 				mk := fmt.Sprintf("%s|%v|%s", mc.ID(), tmpl, v.Clause)
 				if min = f5memo[mk]; min == nil {
 					mp := mc.Build()
@@ -291,7 +291,7 @@ func progWorker(w *pool.W, arg json.RawMessage) {
 			if f == nil || min.Size() < f.Size || (min.Size() == f.Size && min.Text() < f.Text) {
 				mv, _ := check(min, tmpl)
 				nf := &failRec{Key: key, Clause: v.Clause, Size: min.Size(), Template: tmpl, Program: min.JSON(), Text: min.Text(),
-					Source: min.Source(tmpl), From: it.ID, Detail: detail(mv)}
+					Source: source(min, tmpl), From: it.ID, Detail: detail(mv)}
 				if f != nil {
 					nf.N = f.N
 				}
@@ -338,7 +338,16 @@ func progWorker(w *pool.W, arg json.RawMessage) {
 				if fi.Template {
 					modes = []bool{false, true}
 				}
-				one(progen.Item{ID: fi.Cfg.ID(), Family: "F5", P: p}, modes, &fi.Cfg)
+				one(progen.Item{ID: fi.Cfg.ID(), Family: "F5", P: p}, modes, fi.Cfg)
+			}
+			idx++
+			return true
+		})
+		F6(func(c f6cfg) bool { // small: rides on the same shards
+			if idx%sh.M == sh.I {
+				p := c.Build()
+				progen.Concretise(p, b.Seed)
+				one(progen.Item{ID: c.ID(), Family: "F6", P: p}, []bool{false, true}, c)
 			}
 			idx++
 			return true
@@ -481,10 +490,11 @@ func main() {
 	c.Set("f1_payloads", progen.F1Payloads)
 	c.Set("f5_bounds", map[string]int{"switch_labels_full_cross": f5Bounds(c.Tier).SwitchK, "switch_labels_other_forms": f5Bounds(c.Tier).SubK, "match_conditions": f5Bounds(c.Tier).MatchC, "chain_conditions": f5Bounds(c.Tier).ChainK})
 	c.Set("f5_programs_in_bound", F5Count(f5Bounds(c.Tier)))
+	c.Set("f6_programs_in_bound", F6Count())
 	c.Assume("reference semantics = PHP on the subset where docs/control-structures.md, docs/functions.md and PHP agree: ints, strings, bools; + - * % and < <= > >= on two ints; == on equal types; conditions are bools; echo of ints and strings")
 	c.Assume("a `continue` that meets a `switch` is accepted under both readings (PHP: switch counts as a loop level and `continue` on it acts like `break`; C-like: switch is transparent)")
 	c.Assume("functions are declared before their first call (origami does not hoist declarations; hoisting is not part of the statement)")
-	c.Assume("outside the bound: programs larger than the families, floats/null/mixed-type arithmetic in counters (C03 owns operator semantics), closures, generators, goto, references; switch/match labels of another type than the subject (loose comparison across types is C03's)")
+	c.Assume("outside the bound: programs larger than the families, floats/null/mixed-type arithmetic in counters (C03 owns operator semantics), closures, generators, goto, references; switch labels of another kind than the subject except int~float, int~decimal string, null~0, null~\"\" (the other loose cross-kind comparisons are C03's); globals")
 	if skipped > 0 {
 		c.NotExhaustive(fmt.Sprintf("internal deadline reached: %d programs of the bound were not run (%d were)", skipped, total))
 	}
@@ -492,7 +502,7 @@ func main() {
 		c.HarnessError("vacuous: %d programs, %d distinct reference outputs, %d agreeing runs", total, len(hashes), agree)
 	}
 	c.Finish(total, runs+redTests, runs,
-		fmt.Sprintf("every program of families F1 (chains <= %d over 9 constructs x 8 payloads x variants), F2 (functions), F3 (fast paths/aliasing), F4 (all %d-statement lists over the alphabet), F5 (switch/match/elseif dispatch: every label form x value x default position x ending x subject form), %d iterations per loop, run in plain and <?php mode and compared with the reference interpreter; distinct = distinct reference outputs",
+		fmt.Sprintf("every program of families F1 (chains <= %d over 9 constructs x 8 payloads x variants), F2 (functions), F3 (fast paths/aliasing), F4 (all %d-statement lists over the alphabet), F5 (switch/match/elseif dispatch: every label form x value x default position x ending x subject form; labels of every scalar kind), F6 (callee shape x call position x caller shape), %d iterations per loop, run in plain and <?php mode and compared with the reference interpreter; distinct = distinct reference outputs",
 			b.F1Depth, b.F4Len, b.Iter))
 }
 
@@ -528,7 +538,7 @@ func replay(c *ev.Check) {
 	}
 	var whole map[string]any // keep every field of the artefact when it is written back
 	ev.LoadReplay(c.Replay, &whole)
-	fmt.Println(p.Source(cs.Template))
+	fmt.Println(source(p, cs.Template))
 	clause, det := "", ""
 	for i := 0; i < 5; i++ { // determinism before belief
 		v, err := check(p, cs.Template)
